@@ -72,7 +72,7 @@ func init() {
 		if !r.Quick() {
 			depth = 6
 		}
-		grants := []Op{{Op: "authz", Client: "A", Flow: "code"}, {Op: "authz", Client: "A", Flow: "hyb-tok"}, {Op: "password", Client: "A"}, {Op: "device", Client: "A"}, {Op: "cc", Client: "B"}, {Op: "authz", Client: "P", Flow: "oidc"}}
+		grants := []Op{{Op: "authz", Client: "A", Flow: "code"}, {Op: "authz", Client: "A", Flow: "hyb-tok"}, {Op: "password", Client: "A"}, {Op: "device", Client: "A"}, {Op: "cc", Client: "B"}, {Op: "authz", Client: "P", Flow: "oidc"}, {Op: "authz", Client: "A", Flow: "code-partial"}}
 		var specs []FamSpec
 		for _, jwt := range []bool{false, true} {
 			for _, dis := range []bool{false, true} {
